@@ -597,6 +597,8 @@ func classifyH(c CaseH) core.Class {
 		}
 		cl.Labels = append(cl.Labels, "req:"+phase+":"+kind, "aim:"+op.Aim)
 		cl.Labels = append(cl.Labels, unicodeReqLabels(*op.Req, v)...)
+		cl.Labels = append(cl.Labels, punctReqLabels(*op.Req, v)...)
+		cl.Labels = append(cl.Labels, punctCfgLabels(cur)...)
 		if op.Req.Fault != nil {
 			cl.Labels = append(cl.Labels, faultLabels(cur, *op.Req, i, len(c.Ops))...)
 			if edits > 0 {
@@ -675,7 +677,7 @@ func classifyH(c CaseH) core.Class {
 func TestC12h(t *testing.T) {
 	core.Run(t, core.Spec[CaseH]{
 		Property: "C12", Sub: "h",
-		Rule: "histories on one running listener of a real Teamserver whose profile has Demon.TrustXForwardedFor true or false (half each). The listener is started either by the operator's Listener.Add package through the real DispatchEvent (2/3) or by ts.ListenerStart with the configuration teamserver.go builds for a profile listener, response headers included (1/3). Then 0-3 requests and 1-3 rounds of {an operator Listener.Edit package (the dialog's whole form, Info keys and ', '-joined lists exactly as the client sends them) through the real DispatchEvent -> ts.ListenerEdit, 1-4 requests}. Edits change one or two of: URIs (empty the list, fill an empty one, change one element, add, remove one, replace all), user agent (set/unset/change), request headers (empty, fill, change a value, add, remove one; half of the filled / added lists use (a)'s header-NAME classes: entries named User-Agent, Host, Content-Length, Content-Type, Cookie, repeated names, case variants, trailing blank - so a User-Agent entry meets a UserAgent setting that an edit sets, changes or removes). Requests are generated as in (a) - including its Unicode classes (fold partner / confusable of a configured header value, user agent or URI; configured values with s, k, sigma, micro, composed letters) - around the configuration in force or (40% after an edit) around the previous one, carry X-Forwarded-For always when the profile trusts the redirector and in a third of the cases otherwise, and every one is judged by (a)'s reference judge against the configuration in force at that moment, the redirector flag being the profile's throughout: admitted <=> new entry in ts.Agents with 200 + registration reply + response headers + ExternalIP (X-Forwarded-For iff the profile trusts the redirector, else the peer); otherwise 404, no new agent, no new retained event. SCALE (about one history in 20; one count per history from the threshold-adjacent pool 63..8193 of (a)): requests served by the one listener instance - a bulk as in (a) (non-matching POSTs, matching requests, GETs and mixes; totals up to 8193, templates that may be admitted cut at 513 per bulk in the quick tier / 1025 thorough: an admitted request costs ~2 ms on the real Teamserver) placed before the warm-up, after it or after any round, optionally split in two parts with requests and edits in between (each part judged against the configuration then in force), every request judged; operator edits of the one listener (a cycle of 2-3 generated edit forms sent 63..129 times, quick tier; up to 513 thorough - an edit costs ~10 ms), followed by ordinary requests; configured headers / URIs / hosts up to 1025 entries through the operator's Add / Edit packages, configured header value size, headers per request and request header size up to 8193. FAULT INJECTION (about one history in 4, as in (a)): ONE request of the history - before any edit or after one, mostly followed by further requests and edits - is served while one dependency fails (request body unreadable beyond k bytes: failing reader in-process, or over a real socket around the listener's engine Content-Length larger than sent then FIN / RST, chunked with a garbage chunk size, chunked cut by FIN, Content-Length smaller than sent; response writer failing after k bytes; decoy page missing / a directory / working directory elsewhere), then the fault is lifted; the history runs in a working directory that has the decoy page; the request is judged by (a)'s oracle for faulted steps against the configuration in force (complete body => as any request, incomplete => decoy or refused by the protocol with the response headers, no new agent, no new retained event), and every later request and edit must behave as if the fault had not happened. Non-trivial: a request served, then an edit, then a request that satisfies the new configuration or was aimed at the old one; distinct = (start mode, profile flag, kind of the last edit, aim and verdict of the first such request)",
+		Rule: "histories on one running listener of a real Teamserver whose profile has Demon.TrustXForwardedFor true or false (half each). The listener is started either by the operator's Listener.Add package through the real DispatchEvent (2/3) or by ts.ListenerStart with the configuration teamserver.go builds for a profile listener, response headers included (1/3). Then 0-3 requests and 1-3 rounds of {an operator Listener.Edit package (the dialog's whole form, Info keys and ', '-joined lists exactly as the client sends them) through the real DispatchEvent -> ts.ListenerEdit, 1-4 requests}. Edits change one or two of: URIs (empty the list, fill an empty one, change one element, add, remove one, replace all), user agent (set/unset/change), request headers (empty, fill, change a value, add, remove one; half of the filled / added lists use (a)'s header-NAME classes: entries named User-Agent, Host, Content-Length, Content-Type, Cookie, repeated names, case variants, trailing blank - so a User-Agent entry meets a UserAgent setting that an edit sets, changes or removes). Requests are generated as in (a) - including its Unicode classes (fold partner / confusable of a configured header value, user agent or URI; configured values with s, k, sigma, micro, composed letters) - around the configuration in force or (40% after an edit) around the previous one, carry X-Forwarded-For always when the profile trusts the redirector and in a third of the cases otherwise, and every one is judged by (a)'s reference judge against the configuration in force at that moment, the redirector flag being the profile's throughout: admitted <=> new entry in ts.Agents with 200 + registration reply + response headers + ExternalIP (X-Forwarded-For iff the profile trusts the redirector, else the peer); otherwise 404, no new agent, no new retained event. SCALE (about one history in 20; one count per history from the threshold-adjacent pool 63..8193 of (a)): requests served by the one listener instance - a bulk as in (a) (non-matching POSTs, matching requests, GETs and mixes; totals up to 8193, templates that may be admitted cut at 513 per bulk in the quick tier / 1025 thorough: an admitted request costs ~2 ms on the real Teamserver) placed before the warm-up, after it or after any round, optionally split in two parts with requests and edits in between (each part judged against the configuration then in force), every request judged; operator edits of the one listener (a cycle of 2-3 generated edit forms sent 63..129 times, quick tier; up to 513 thorough - an edit costs ~10 ms), followed by ordinary requests; configured headers / URIs / hosts up to 1025 entries through the operator's Add / Edit packages, configured header value size, headers per request and request header size up to 8193. FAULT INJECTION (about one history in 4, as in (a)): ONE request of the history - before any edit or after one, mostly followed by further requests and edits - is served while one dependency fails (request body unreadable beyond k bytes: failing reader in-process, or over a real socket around the listener's engine Content-Length larger than sent then FIN / RST, chunked with a garbage chunk size, chunked cut by FIN, Content-Length smaller than sent; response writer failing after k bytes; decoy page missing / a directory / working directory elsewhere), then the fault is lifted; the history runs in a working directory that has the decoy page; the request is judged by (a)'s oracle for faulted steps against the configuration in force (complete body => as any request, incomplete => decoy or refused by the protocol with the response headers, no new agent, no new retained event), and every later request and edit must behave as if the fault had not happened. Non-trivial: a request served, then an edit, then a request that satisfies the new configuration or was aimed at the old one; distinct = (start mode, profile flag, kind of the last edit, aim and verdict of the first such request) Punctuation values and one-character substitution as in (a) (punct_test.go): header lists the operator types in carry values with ASCII punctuation (one in three ordinary values), requests - also those aimed at the previous configuration - carry a configured value with ONE ASCII character replaced by a one-bit neighbour (bit 5 = the case bit three times as often) or the next / previous code; judged by the same oracle against the configuration in force (labels char-substituted:*, cfg-header-value-has-ascii-punctuation)",
 		Gen:  genH, Check: checkH, Classify: classifyH,
 		Assumptions: []string{
 			"operator packages are dispatched without a connected operator socket (replies to 'the user' and broadcasts are no-ops), as CreatePackage + EventAppend + DispatchEvent, which is what handleRequest does after authentication",
